@@ -1044,3 +1044,38 @@ _UTR2_NEW = ("        return self._convert_current(_application, _route, request
              "                                     hide_internal_frames=self.hide_internal_frames)\n")
 T('pBf_twin_server_error_through_helper_with_extras', ['C08'], (E, _UTR1, _UTR1_NEW), (E, _UTR2, _UTR2_NEW))
 B('pBf_helper_extras_meet_a_rejecting_base', ['C08'], 'R08.k', (E, _UTR1, _UTR1_NEW), (E, _UTR2, _UTR2_NEW), (E, _HE_INIT, _HE_INIT + _REJECT))
+
+# ---- round g -------------------------------------------------------------------------------------------------------------
+# R08.a / R08.b for every call that runs a route: the null route run by name instead of through the loop
+_G_LOOP = "        for route in self.routes + [self._null_route]:\n"
+_G_TAIL = "            else:\n                dispatch_state.add_exception(ret)\n"
+_G_EXEC = "                ret = route.execute(**params)\n"
+_G_TEST = ("                if not isinstance(ret, BaseResponse):\n                    msg = 'expected Response, received %r' % type(ret)\n"
+           "                    raise TypeError(msg)\n")
+T('pBg_twin_null_route_run_by_name_in_the_region', ['C08'],
+  (A, _G_EXEC, "                if route is self._null_route:\n                    ret = self._null_route.execute(**params)\n"
+               "                else:\n                    ret = route.execute(**params)\n"))
+B('pBg_null_route_run_in_the_loop_else', ['C08'], 'R08.a',
+  (A, _G_LOOP, "        for route in self.routes:\n"),
+  (A, _G_TAIL, _G_TAIL + "        else:\n            params = base_params\n            ret = self._null_route.execute(**params)\n"))
+B('pBg_null_route_run_when_nothing_answered', ['C08'], 'R08.a',
+  (A, _G_LOOP, "        params = base_params\n        for route in self.routes:\n"),
+  (A, _G_TAIL, _G_TAIL + "        if ret is None:\n            nr = self._null_route\n            ret = nr.execute(**base_params)\n"))
+B('pBg_null_route_result_after_the_response_test', ['C08'], 'R08.b',
+  (A, _G_TEST, _G_TEST + "                if route.is_branch and ret.status_code == 404:\n                    ret = self._null_route.execute(**params)\n"))
+B('pBg_null_route_result_returned_untested', ['C08'], 'R08.b',
+  (A, _G_EXEC, "                if route is self._null_route:\n                    return self._null_route.execute(**params)\n" + _G_EXEC))
+
+# R06.d: "no methods" is the wildcard match_method reads -- the binding keeps it, the null route declares none
+_G_BM = "        self.methods = route.methods\n"
+_G_NR = "                                        slash_mode=S_REWRITE)\n"
+T('pBg_twin_bound_methods_through_a_local', ['C06'], (R, _G_BM, "        declared = route.methods\n        self.methods = declared\n"))
+T('pBg_twin_bound_methods_or_none', ['C06'], (R, _G_BM, "        self.methods = route.methods or None\n"))
+T('pBg_twin_bound_methods_copied_when_declared', ['C06'],
+  (R, _G_BM, "        if route.methods:\n            self.methods = set(route.methods)\n        else:\n            self.methods = route.methods\n"))
+T('pBg_twin_null_route_says_no_methods', ['C06'], (R, _G_NR, "                                        slash_mode=S_REWRITE, methods=None)\n"))
+B('pBg_bound_methods_or_all_known', ['C06'], 'R06.d', (R, _G_BM, "        self.methods = route.methods or set(HTTP_METHODS)\n"))
+B('pBg_bound_methods_set_of_declared_or_known', ['C06'], 'R06.d', (R, _G_BM, "        self.methods = set(route.methods or HTTP_METHODS)\n"))
+B('pBg_bound_methods_default_then_overwritten', ['C06'], 'R06.d',
+  (R, _G_BM, "        self.methods = frozenset(HTTP_METHODS)\n        if route.methods:\n            self.methods = route.methods\n"))
+B('pBg_null_route_declares_the_known_methods', ['C06'], 'R06.d', (R, _G_NR, "                                        slash_mode=S_REWRITE, methods=HTTP_METHODS)\n"))
